@@ -839,6 +839,22 @@ def _judge(ctx, case, run, in_snap, what, vectors, sorted_labels, hier, key_is_i
     got = canon.snap(out)
     want = _permute_snapshot(in_snap, exp, what)
     if got == want:
+        # the labels travelled with their rows; they must also be *found* where they now are: a label -> position answer that
+        # still describes the arrangement before the sort returns the wrong row for every later selection by label
+        ax = out if what == 'index' else (out.index if what in ('rows', 'series') else out.columns)
+        labs = canon.index_labels(ax)
+        for pos in sorted({0, len(labs) - 1, len(labs) // 2}) if labs else ():
+            lab = labs[pos]
+            try:
+                if lab != lab or (isinstance(lab, tuple) and any(x != x for x in lab)):
+                    continue
+                p = ax.loc_to_iloc(lab)
+            except Exception as e:
+                ctx.violation('sorted_label_lookup_raised', detail={'label': repr(lab), 'position': pos, 'exception': type(e).__name__}, klass=klass)
+                return
+            if not isinstance(p, (int, np.integer)) or int(p) != pos:
+                ctx.violation('sorted_label_found_elsewhere', detail={'label': repr(lab), 'position': pos, 'loc_to_iloc': repr(p)}, klass=klass)
+                return
         return
     diag = _diagnose(in_snap, got, what, keys, ascending, exp)
     exp_labels = [sorted_labels[i] for i in exp]
